@@ -13,7 +13,8 @@ world = {
           | {"op": "add", "extra": k, "frame": str (optional override), "reuse": j (optional: re-use the
              OBJECT created for an earlier add of extra j  -> aliasing), "no_tm": bool}
           | {"op": "set_joint", "joint": str, "value": float}
-          | {"op": "move", "frame": str, "parent": str, "T": [16]}        # tm.add_transform
+          | {"op": "move", "frame": str, "parent": str, "T": [16], "inplace": bool}   # tm.add_transform; inplace: the array
+             object handed over earlier is overwritten and added again
           | {"op": "set_wl", "wl": {frame: [frames]}, "replace": bool}
           | {"op": "update"}
           | {"op": "query", "kind":..., "params":..., "pose": [16], "whitelist": [frames]}
@@ -121,7 +122,7 @@ class World:
         if w["urdf"] is not None:
             self.tm = UrdfTransformManager()
             self.tm.load_urdf(urdf_xml(w["urdf"]))
-            self.base = w["urdf"]["links"][0]["name"]
+            self.base = w["urdf"].get("root", w["urdf"]["links"][0]["name"])
             for ln in w["urdf"]["links"]:
                 for k, c in enumerate(ln["collisions"]):
                     nm = c["name"] if c.get("name") else str(k)
@@ -135,6 +136,8 @@ class World:
             self.bvh = BoundingVolumeHierarchy(self.tm, self.base)
         self.extra_obj = {}
         self.added = set()
+        self.tf = {}            # frame -> (parent, the array OBJECT handed to tm.add_transform)
+        self.base_stamp = {}    # oid -> pose stamp after the last state-changing command
 
     # -- object registry -------------------------------------------------
     def register(self, obj, kind, params, pose0):
@@ -242,7 +245,9 @@ class World:
                 ex = self.w["extras"][cmd["extra"]]
                 frame = cmd.get("frame", ex["frame"])
                 if not cmd.get("no_tm", False):
-                    tm.add_transform(frame, ex["parent"], arr44(ex["T"]))
+                    arr = arr44(ex["T"])
+                    tm.add_transform(frame, ex["parent"], arr)
+                    self.tf[frame] = (ex["parent"], arr)
                 if "reuse" in cmd:
                     obj = self.extra_obj[cmd["reuse"]]
                     i = self.oid(obj)
@@ -256,7 +261,25 @@ class World:
             elif op == "set_joint":
                 tm.set_joint(cmd["joint"], cmd["value"])
             elif op == "move":
-                tm.add_transform(cmd["frame"], cmd["parent"], arr44(cmd["T"]))
+                old = self.tf.get(cmd["frame"])
+                if cmd.get("inplace") and old is not None and old[0] == cmd["parent"]:
+                    arr = old[1]                    # the caller edits ITS array in place and adds it again
+                    arr[...] = arr44(cmd["T"])
+                else:
+                    arr = arr44(cmd["T"])
+                tm.add_transform(cmd["frame"], cmd["parent"], arr)
+                self.tf[cmd["frame"]] = (cmd["parent"], arr)
+                # colliders keep references to / views of the arrays the transform manager hands out: an in-place
+                # edit moves them before update_collider_poses is called
+                poked = []
+                for f, c in bvh.colliders_.items():
+                    i = self.oid(c)
+                    if i >= 0:
+                        st = self.stamp(i, c.collider2origin())
+                        if self.base_stamp.get(i) != st:
+                            poked.append([i, st])
+                            self.base_stamp[i] = st
+                rec["poked"] = poked
             elif op == "set_wl":
                 if cmd.get("replace", False):
                     bvh.self_collision_whitelists_ = {k: list(v) for k, v in cmd["wl"].items()}
@@ -291,6 +314,14 @@ class World:
             rec["exc"] = type(e).__name__
             rec["msg"] = str(e)[:200]
             rec["tb"] = traceback.format_exc()[-600:]
+        if op in ("fill", "add", "update"):
+            for f, c in bvh.colliders_.items():
+                i = self.oid(c)
+                if i >= 0:
+                    try:
+                        self.base_stamp[i] = self.stamp(i, c.collider2origin())
+                    except Exception:  # noqa
+                        pass
         return rec
 
     def _stamp_frame(self, f, pose):
